@@ -1,28 +1,40 @@
 ------------------------------ MODULE ClusterGen ------------------------------
-(* Behaviour emitter for Cluster: a sequential client (each command is       *)
-(* answered before the next is issued) interleaved with migration steps;     *)
+(* Behaviour emitter for Cluster: a client interleaved with migration steps; *)
 (* every command carries the reply a single server would give.               *)
+(* Pipelined = FALSE: a sequential client (each command is answered before   *)
+(* the next is issued).                                                      *)
+(* Pipelined = TRUE: ONE client that does not wait for its replies (p = 1    *)
+(* marks a command issued while earlier ones are unanswered: the replay      *)
+(* writes such a burst in one piece). A single server executes a pipeline in *)
+(* the order it was written, so the expected reply is computed at issue time *)
+(* (sref). The refresher is held back in these behaviours (the replay does   *)
+(* the same with the refresh timers): the routing table stays as loaded,     *)
+(* every command of a moved slot takes the way over the old owner.           *)
 EXTENDS MC_Cluster, Json
-VARIABLES hist, finished
-gvars == <<vars, hist, finished>>
-GenInit == Init /\ hist = <<[a |-> "layout", owner |-> owner, k |-> "", op |-> "", exp |-> 0]>> /\ finished = FALSE
+CONSTANTS Pipelined, MaxBurst   \* MaxBurst: commands the pipelining client keeps unanswered at most
+VARIABLES hist, finished, sref
+gvars == <<vars, hist, finished, sref>>
+GenInit == /\ Init /\ finished = FALSE /\ sref = [k \in Keys |-> Absent]
+           /\ hist = <<[a |-> "layout", owner |-> owner, k |-> "", op |-> "", exp |-> 0, p |-> 0, conn |-> hasConn]>>
 AllAnswered == \A r \in R : reqs[r].st = "done"
 Finish ==
   /\ ~finished /\ Len(reqs) = MaxCmds /\ AllAnswered
   /\ PrintT("@@BEH " \o ToJson(hist))
-  /\ finished' = TRUE /\ UNCHANGED <<vars, hist>>
-Ev(a, op, k, exp) == hist' = Append(hist, [a |-> a, owner |-> owner', k |-> k, op |-> op, exp |-> exp])
+  /\ finished' = TRUE /\ UNCHANGED <<vars, hist, sref>>
+Ev(a, op, k, exp, p) == hist' = Append(hist, [a |-> a, owner |-> owner', k |-> k, op |-> op, exp |-> exp, p |-> p])
 GenNext ==
   /\ ~finished
   /\ \/ \E op \in {"read", "write"}, k \in Keys :
-          /\ AllAnswered /\ Issue(op, k)
-          /\ Ev("cmd", op, k, IF op = "write" THEN Len(reqs) + 1 ELSE ref[k])
-     \/ (\E n \in Nodes : NodeExec(n)) /\ UNCHANGED hist
-     \/ (\E r \in R : AskSecond(r)) /\ UNCHANGED hist
-     \/ Refresh /\ UNCHANGED hist
-     \/ \E s \in Slots, d \in Nodes : AllAnswered /\ SetMigrating(s, d) /\ Ev("setmigrating", s, "", d)
-     \/ \E k \in Keys : AllAnswered /\ MigrateKey(k) /\ Ev("migratekey", "", k, 0)
-     \/ \E s \in Slots : AllAnswered /\ Finalise(s) /\ Ev("finalise", s, "", 0)
+          /\ (AllAnswered \/ (Pipelined /\ Cardinality({r \in R : reqs[r].st # "done"}) < MaxBurst)) /\ Issue(op, k)
+          /\ Ev("cmd", op, k, IF op = "write" THEN Len(reqs) + 1 ELSE IF Pipelined THEN sref[k] ELSE ref[k],
+                IF AllAnswered THEN 0 ELSE 1)
+          /\ sref' = IF op = "write" THEN [sref EXCEPT ![k] = Len(reqs) + 1] ELSE sref
+     \/ (\E n \in Nodes : NodeExec(n)) /\ UNCHANGED <<hist, sref>>
+     \/ (\E r \in R : AskSecond(r)) /\ UNCHANGED <<hist, sref>>
+     \/ ~Pipelined /\ RefreshNext /\ UNCHANGED <<hist, sref>>
+     \/ \E s \in Slots, d \in Nodes : AllAnswered /\ SetMigrating(s, d) /\ Ev("setmigrating", s, "", d, 0) /\ UNCHANGED sref
+     \/ \E k \in Keys : AllAnswered /\ MigrateKey(k) /\ Ev("migratekey", "", k, 0, 0) /\ UNCHANGED sref
+     \/ \E s \in Slots : AllAnswered /\ Finalise(s) /\ Ev("finalise", s, "", 0, 0) /\ UNCHANGED sref
   /\ UNCHANGED finished
 GenSpec == GenInit /\ [][GenNext \/ Finish]_gvars
 =============================================================================
